@@ -3994,43 +3994,64 @@ static int32 writePskServerKeyExchange(ssl_t *ssl, sslBuf_t *out)
 #  ifdef USE_STATELESS_SESSION_TICKETS /* Already inside a USE_SERVER_SIDE block */
 static int32 writeNewSessionTicket(ssl_t *ssl, sslBuf_t *out)
 {
-    unsigned char *c, *end, *encryptStart;
+    unsigned char *c, *end, *encryptStart, *ticket;
     uint8_t padLen;
     psSize_t messageSize;
     int32_t rc;
+    int32 ticketLen;
 
     psTracePrintHsMessageCreate(ssl, SSL_HS_NEW_SESSION_TICKET);
 
     c = out->end;
     end = out->buf + out->size;
 
-    /* magic 6 is 4 bytes lifetime hint and 2 bytes len */
-    messageSize = ssl->recordHeadLen + ssl->hshakeHeadLen +
-                  matrixSessionTicketLen() + 6;
+    /* Build the message body first: its length is known only then. magic 6
+       is 4 bytes lifetime hint and 2 bytes len */
+    ticketLen = matrixSessionTicketLen() + 6;
+    if ((ticket = psMalloc(ssl->hsPool, ticketLen)) == NULL)
+    {
+        return SSL_MEM_ERROR;
+    }
+#   ifdef USE_DTLS
+    if (ACTV_VER(ssl, v_dtls_any) && ssl->retransmit == 1 &&
+        ssl->sid->sessionTicket != NULL &&
+        ssl->sid->sessionTicketLen <= ticketLen)
+    {
+        /* Same message as the first time: the handshake hash has it */
+        ticketLen = ssl->sid->sessionTicketLen;
+        Memcpy(ticket, ssl->sid->sessionTicket, ticketLen);
+    }
+    else
+#   endif
+    if (matrixCreateSessionTicket(ssl, ticket, &ticketLen) < 0)
+    {
+        /* No ticket can be made - the ticket keys this handshake counted on
+           when it announced the ticket in ServerHello may have been deleted
+           since. RFC 5077 3.3: "If the server determines that it does not
+           want to include a ticket after it has included the SessionTicket
+           extension in the ServerHello, then it sends a zero-length ticket
+           in the NewSessionTicket handshake message" */
+        psTraceErrr("Error generating session ticket: sending an empty one\n");
+        Memset(ticket, 0x0, 6);
+        ticketLen = 6;
+    }
+    messageSize = ssl->recordHeadLen + ssl->hshakeHeadLen + ticketLen;
 
     if ((rc = writeRecordHeader(ssl, SSL_RECORD_TYPE_HANDSHAKE,
              SSL_HS_NEW_SESSION_TICKET, &messageSize, &padLen,
              &encryptStart, end, &c)) < 0)
     {
+        psFree(ticket, ssl->hsPool);
         return rc;
     }
-
-    rc = (int32) (end - c);
-#   ifdef USE_DTLS
-    if (ACTV_VER(ssl, v_dtls_any) && ssl->retransmit == 1 &&
-        ssl->sid->sessionTicket != NULL)
+    if ((int32) (end - c) < ticketLen)
     {
-        /* Same message as the first time: the handshake hash has it */
-        rc = ssl->sid->sessionTicketLen;
-        Memcpy(c, ssl->sid->sessionTicket, rc);
+        psFree(ticket, ssl->hsPool);
+        return SSL_FULL;
     }
-    else
-#   endif
-    if (matrixCreateSessionTicket(ssl, c, &rc) < 0)
-    {
-        psTraceErrr("Error generating session ticket\n");
-        return MATRIXSSL_ERROR;
-    }
+    Memcpy(c, ticket, ticketLen);
+    psFree(ticket, ssl->hsPool);
+    rc = ticketLen;
 #   ifdef USE_DTLS
     if (ACTV_VER(ssl, v_dtls_any) && ssl->retransmit == 0)
     {
